@@ -68,7 +68,7 @@ class World:
         before = (first_tsn - 1) % (1 << 32)
         self.snd = SimpleNamespace(__cls__=ci, name="sender", _sent_queue=deque(), _outbound_queue=deque(), _last_sacked_tsn=before, _advanced_peer_ack_tsn=before,
                                    _forward_tsn_chunk=None, _forward_tsn_pending=None, _forward_tsn_streams={}, _flight_size=0, _cwnd=4 * MTU, _ssthresh=1 << 20,
-                                   _partial_bytes_acked=0, _fast_recovery_exit=None, _fast_recovery_transmit=False, _t3_handle=None, _rto=3.0, _srtt=None, _rttvar=None, delivered=[])
+                                   _partial_bytes_acked=0, _fast_recovery_exit=None, _fast_recovery_transmit=False, _t3_handle=None, _rto=3.0, _srtt=None, _rttvar=None, _local_tsn=first_tsn, delivered=[])
         self.rcv = SimpleNamespace(__cls__=ci, name="receiver", _last_received_tsn=before, _sack_needed=False, _sack_duplicates=[], _sack_misordered=set(), _inbound_streams={},
                                    _inbound_streams_max=65535, _advertised_rwnd=1 << 20, delivered=[])
         # stream 1 has been in use for a while: its next stream sequence number is 65535 (the workload crosses the 16-bit wrap)
@@ -107,6 +107,7 @@ class World:
             c._sent_count = 0
             c._sent_time = None
             self.snd._outbound_queue.append(c)
+        self.snd._local_tsn = (first_tsn + nfrag) % (1 << 32)
         return msg
 
     def run(self, limit: int = 400) -> None:
